@@ -210,6 +210,11 @@ def enumerate_faults(ctx, base, entry, rng, tier, stats):
         for i in range(n):
             for k in (("kbd", "sysexit", "cancel") if tier != "quick" or i < 3 else ("kbd",)):
                 plans.append({"kind": "hook", "hook": hk, "at": i, "exc": k})
+    # ... and on EVERY invocation (whatever the library emits while it settles the call is interrupted too)
+    for hk in ("metric", "log"):
+        if counts.get("hook:" + hk, 0):
+            for k in ("kbd", "sysexit"):
+                plans.append({"kind": "hook", "hook": hk, "at": "always", "exc": k})
     # an interrupt landing inside the breaker's own record method, before it changed anything: the call still owes its report
     for opn in ("record_success", "record_failure"):
         for k in ("kbd", "sysexit", "cancel"):
